@@ -53,11 +53,12 @@ def transposeFlat [Inhabited α] (flat : Array α) (nPoints nStates : Nat) : Arr
 
 /-- one entry of `y_events`: an empty Python list, or a row-major (k, n) array -/
 inductive YEv (α : Type) where
-  | emptyList
+  /-- an event that never fired: `np.empty((0,))`, as SciPy's `np.asarray([])` (a Python list before the repair) -/
+  | emptyArr
   | arr (k n : Nat) (flat : Array α)
 
 def yEvent (ye : Array (Array α)) : YEv α :=
-  if ye.isEmpty then .emptyList
+  if ye.isEmpty then .emptyArr
   else .arr ye.size (ye[0]!).size (ye.foldl (· ++ ·) #[])
 
 /-- the fields of `OdeResult` that `build_result` computes -/
